@@ -36,6 +36,18 @@ def CANTOR2(x, y):
 SPEC2D = {"Szudzik": SZ, "RosenbergStrong": RS}
 
 
+def opaque(name):
+    """Uninterpreted stand-in for a spec function: composition proofs see it only through proved lemmas
+    (injectivity, value at the origin) -- the 'opaque / reveal' discipline that keeps NIA out of EUF+LIA proofs."""
+    import z3
+    from pyvc.sym import lift, as_int_term
+    f = z3.Function("spec_" + name, z3.IntSort(), z3.IntSort(), z3.IntSort())
+
+    def spec(x, y):
+        return Sym(f(as_int_term(lift(x)), as_int_term(lift(y))), "i")
+    return spec
+
+
 def nonneg(*xs):
     return And(*[x >= 0 for x in xs])
 
@@ -128,6 +140,7 @@ class Injective2d(Lemma):
         vc.assume(self.spec(x, y) == self.spec(u, v))
         vc.check(f"{self.name}::same-shell", m == n)
         vc.check(f"{self.name}::injective", And(x == u, y == v))
+        vc.check(f"{self.name}::zero-at-origin", self.spec(0, 0) == 0)
 
 
 class Bijection2d(Lemma):
@@ -171,3 +184,394 @@ ASSUMPTIONS = [
 ]
 TRUSTED_BASE = ["z3 5.1 (NIA)", "cvc5 1.4 on z3 unknowns", "pyvc interpreter + library models (pyvc/lib.py)"]
 BOUNDED = []
+
+
+# ----------------------------------------------------------------- Cantor
+class EvenProduct(Lemma):
+    """n(n+1) is even (z3 does not see the parity of a product unaided: explicit quotient/remainder instance)."""
+    prop = "C14"
+    name = "lemma:consecutive-product-even"
+
+    def statement(self, n):
+        return (n * (n + 1)) % 2 == 0
+
+    def prove(self, vc, case):
+        n = vc.int("n")
+        k, r = n // 2, n % 2
+        vc.check(f"{self.name}::expand", n * (n + 1) == 2 * (2 * k * k + 2 * k * r + k + r))
+        vc.check(f"{self.name}::even", self.statement(n))
+
+
+EVEN = EvenProduct()
+
+
+class CantorPairing(Pairing2d):
+    def __init__(self):
+        super().__init__("Cantor", None)
+
+    def setup(self, vc, case):
+        a = super().setup(vc, case)
+        vc.assume(EVEN.statement(a["x"] + a["y"]))     # use(lemma EvenProduct, x + y)
+        return a
+
+    def ensures(self, result, x, y):
+        return {"equals-spec": 2 * result == CANTOR2(x, y), "natural": result >= 0}
+
+
+class CantorProjection(Projection2d):
+    """omega = floor((-1 + sqrt(1 + 8 z)) / 2) is the triangular root: w(w+1) <= 2z < (w+1)(w+2)."""
+
+    def __init__(self):
+        super().__init__("Cantor", None)
+
+        def hint(L, vc):
+            w, z = L.omega, L.z
+            s = vc.interp.lib.m_isqrt(1 + 8 * z)
+            vc.check("Cantor.projection2d::hint:root-bracket", And(2 * w + 1 <= s, s <= 2 * w + 2))
+            vc.check("Cantor.projection2d::hint:w-natural", w >= 0)
+            vc.check("Cantor.projection2d::hint:lower", (2 * w + 1) * (2 * w + 1) <= 1 + 8 * z)
+            vc.check("Cantor.projection2d::hint:upper", 1 + 8 * z < (2 * w + 3) * (2 * w + 3))
+            vc.check("Cantor.projection2d::hint:triangular-root", And(w * (w + 1) <= 2 * z, 2 * z < (w + 1) * (w + 2)))
+            vc.assume(EVEN.statement(w))                # use(lemma EvenProduct, omega)
+            h = (w * (w + 1)) // 2
+            vc.check("Cantor.projection2d::hint:half-is-integer", And(2 * h == w * (w + 1), (w * (w + 3)) // 2 == h + w))
+            vc.ghost["h"], vc.ghost["w"] = h, w
+        self.hints = {"omega": hint}
+
+    def ensures(self, result, z):
+        if not (isinstance(result, tuple) and len(result) == 2):
+            return {"shape": False}
+        a, b = result
+        out = {}
+        from pyvc import ctx
+        g = ctx.PATH.ghost if ctx.PATH is not None else {}
+        if "h" in g:    # proof hint (prover only): the two truncations are exact
+            out["hint:coordinates-exact"] = And(a == z - g["h"], b == g["h"] + g["w"] - z)
+        out.update({"natural-coordinates": nonneg(a, b), "right-inverse": CANTOR2(a, b) == 2 * z})
+        return out
+
+
+class CantorInjective(Injective2d):
+    def __init__(self):
+        super().__init__("Cantor", CANTOR2)
+
+    def prove(self, vc, case):
+        x, y, u, v = vc.int("x"), vc.int("y"), vc.int("u"), vc.int("v")
+        vc.assume(nonneg(x, y, u, v))
+        vc.assume(CANTOR2(x, y) == CANTOR2(u, v))
+        s, t = x + y, u + v
+        # two-step lemma: equal anti-diagonals first
+        vc.check(f"{self.name}::not-smaller-diagonal", Not(s < t))
+        vc.check(f"{self.name}::not-larger-diagonal", Not(s > t))
+        vc.check(f"{self.name}::injective", And(x == u, y == v))
+        vc.check(f"{self.name}::zero-at-origin", CANTOR2(0, 0) == 0)
+
+
+class CantorBijection(Bijection2d):
+    pass
+
+
+_cp, _cq, _ci = CantorPairing(), CantorProjection(), CantorInjective()
+C["Cantor"] = (_cp, _cq, _ci)
+
+
+class CantorBij(Lemma):
+    prop = "C14"
+    name = "property:Cantor.2d-bijection"
+
+    def prove(self, vc, case):
+        x, y, z = vc.int("x"), vc.int("y"), vc.int("z")
+        vc.assume(nonneg(x, y, z))
+        w = vc.fresh("w", "i")
+        vc.assume(And(*_cp.ensures(w, x, y).values()))
+        vc.check(f"{self.name}::pairing-lands-in-projection-domain", _cq.requires(w))
+        r = _cq.modular_result(vc, w)
+        vc.assume(And(*_cq.ensures(r, w).values()))
+        vc.assume(_ci.statement(r[0], r[1], x, y))
+        vc.check(f"{self.name}::projection-after-pairing-is-identity", And(r[0] == x, r[1] == y))
+        q = _cq.modular_result(vc, z)
+        vc.assume(And(*_cq.ensures(q, z).values()))
+        w2 = vc.fresh("w2", "i")
+        vc.assume(And(*_cp.ensures(w2, q[0], q[1]).values()))
+        vc.check(f"{self.name}::pairing-after-projection-is-identity", w2 == z)
+
+
+UNITS += [EVEN, _cp, _cq, _ci, CantorBij()]
+
+
+# ----------------------------------------------------------------- Z <-> N foldings
+def MZ(n):
+    """0, 1, -1, 2, -2, ... -> 0, 1, 2, 3, 4, ...   (spec, from the property text)"""
+    return If(n > 0, 2 * n - 1, -2 * n) if is_sym(n) else (2 * n - 1 if n > 0 else -2 * n)
+
+
+class MappingToZ(FunctionContract):
+    prop = "C14"
+    target = P + "mapping_to_z"
+    name = "mapping_to_z"
+
+    def setup(self, vc, case):
+        return dict(n=vc.int("n"))
+
+    def ensures(self, result, n):
+        return {"equals-spec": result == MZ(n), "natural": result >= 0, "zero-iff-zero": (result == 0) == (n == 0)}
+
+    def modular_result(self, vc, n):
+        return vc.fresh("mz", "i")
+
+    def replay(self, model, clause, case):
+        n = model["n"]
+        r = native(self.target)(n)
+        return (not self.ensures(r, n)[clause], {"input": n, "native_result": r})
+
+
+class ProjectionToZ(FunctionContract):
+    prop = "C14"
+    target = P + "projection_to_z"
+    name = "projection_to_z"
+
+    def setup(self, vc, case):
+        return dict(z=vc.int("z"))
+
+    def requires(self, z):
+        return z >= 0
+
+    def ensures(self, result, z):
+        return {"right-inverse": MZ(result) == z, "zero-iff-zero": (result == 0) == (z == 0)}
+
+    def modular_result(self, vc, z):
+        return vc.fresh("pz", "i")
+
+    def replay(self, model, clause, case):
+        z = model["z"]
+        r = native(self.target)(z)
+        return (not self.ensures(r, z)[clause], {"input": z, "native_result": r})
+
+
+class FoldingBijection(Lemma):
+    prop = "C14"
+    name = "property:Z-folding-bijection"
+
+    def prove(self, vc, case):
+        n, k, z = vc.int("n"), vc.int("k"), vc.int("z")
+        vc.check(f"{self.name}::spec-injective", Implies(MZ(n) == MZ(k), n == k))
+        m, p = MappingToZ(), ProjectionToZ()
+        w = vc.fresh("w", "i")
+        vc.assume(And(*m.ensures(w, n).values()))
+        vc.check(f"{self.name}::mapping-lands-in-domain", p.requires(w))
+        r = vc.fresh("r", "i")
+        vc.assume(And(*p.ensures(r, w).values()))
+        vc.check(f"{self.name}::projection-after-mapping", r == n)
+        vc.assume(z >= 0)
+        q = vc.fresh("q", "i")
+        vc.assume(And(*p.ensures(q, z).values()))
+        w2 = vc.fresh("w2", "i")
+        vc.assume(And(*m.ensures(w2, q).values()))
+        vc.check(f"{self.name}::mapping-after-projection", w2 == z)
+
+
+UNITS += [MappingToZ(), ProjectionToZ(), FoldingBijection()]
+
+
+# ----------------------------------------------------------------- N^d pairings by nesting (Pairing.pairing / .projection), d = 3
+class NestedPairing3(Lemma):
+    """Pairing.pairing((x0,x1,x2)) and Pairing.projection(z, 3): real bodies, 2-d maps through their contracts."""
+    prop = "C14"
+
+    def __init__(self, cls):
+        self.cls = cls
+        self.name = f"property:{cls}.3d-bijection"
+
+    def prove(self, vc, case):
+        it = vc.interp
+        pc, qc, inj = C[self.cls]
+        it.modular = {pc.target: pc, qc.target: qc}
+        o = vc.obj(P + self.cls)
+        x = tuple(vc.ints("x", 3))
+        z = vc.int("z")
+        vc.assume(nonneg(*x, z))
+        w = it.call(it.getattr(o, "pairing"), [x], {})
+        vc.check(f"{self.name}::pairing-natural", w >= 0)
+        r = it.call(it.getattr(o, "projection"), [w, 3], {})
+        vc.check(f"{self.name}::projection-shape", isinstance(r, tuple) and len(r) == 3)
+        # inner value p with spec(p, x2) = spec(spec(x0,x1), x2); injectivity twice
+        sp = pc.spec if pc.spec is not None else None
+        inner = vc.fresh("inner", "i")
+        vc.assume(And(*pc.ensures(inner, x[0], x[1]).values()))
+        vc.ghost["inner"] = inner
+        for a, b, c, d in self._instances(vc, r, x, inner):
+            vc.assume(inj.statement(a, b, c, d))
+        vc.check(f"{self.name}::projection-after-pairing-is-identity", And(*[ri == xi for ri, xi in zip(r, x)]))
+        q = it.call(it.getattr(o, "projection"), [z, 3], {})
+        vc.check(f"{self.name}::projection-natural", nonneg(*q))
+        w2 = it.call(it.getattr(o, "pairing"), [tuple(q)], {})
+        vc.check(f"{self.name}::pairing-after-projection-is-identity", w2 == z)
+
+    def _instances(self, vc, r, x, inner):
+        # the projection produced (p, r2) with spec(p, r2) = w, then (r0, r1) with spec(r0, r1) = p
+        p = vc.fresh("p", "i")
+        pc, qc, inj = C[self.cls]
+        vc.assume(And(*pc.ensures(p, r[0], r[1]).values()))   # p := pairing2d(r0, r1)  (defines p; total function)
+        return [(p, r[2], inner, x[2]), (r[0], r[1], x[0], x[1])]
+
+    def replay(self, model, clause, case):
+        o = native(P + self.cls)()
+        x = tuple(model.get("x", [0, 0, 0]))
+        z = model.get("z", 0)
+        info = {"x": list(x), "z": z}
+        try:
+            w = o.pairing(x)
+            r = tuple(int(v) for v in o.projection(w, 3))
+            q = tuple(int(v) for v in o.projection(z, 3))
+            w2 = o.pairing(q)
+            info.update(pairing=w, projection_of_pairing=list(r), projection=list(q), pairing_of_projection=w2)
+            bad = r != x or w2 != z or any(v < 0 for v in q)
+        except Exception as e:
+            info["exception"] = f"{type(e).__name__}: {e}"
+            bad = True
+        return (bad, info)
+
+
+UNITS += [NestedPairing3("Szudzik")]
+
+
+# ----------------------------------------------------------------- PairingToZd: N <-> Z^d \ {0}
+class ZdBijection(Lemma):
+    """pair/project of PairingToZd (omit_zero=True): real bodies of pair, project, pairing, projection, the nested
+    Pairing.pairing/projection and the two foldings; the 2-d natural pairing through its contract."""
+    prop = "C14"
+
+    def __init__(self, cls, d):
+        self.cls, self.d = cls, d
+        self.name = f"property:PairingToZd[{cls},d={d}].bijection"
+
+    def prove(self, vc, case):
+        it = vc.interp
+        S = opaque(self.cls)
+        # contracts restated over the opaque spec (for Cantor S stands for the doubled value's half, i.e. the pairing itself)
+        pc, qc = Pairing2d(self.cls, S), Projection2d(self.cls, S)
+        inj = Injective2d(self.cls, S)      # statement schema only; proved with the revealed spec in its own unit
+        vc.assume(S(0, 0) == 0)             # use(lemma zero-at-origin)
+        mz, pz = MappingToZ(), ProjectionToZ()
+        it.modular = {pc.target: pc, qc.target: qc, mz.target: mz, pz.target: pz}
+        d = self.d
+        o = vc.obj(P + "PairingToZd", n_pairing=vc.obj(P + self.cls), dimension=d, _omitting_zero=1)
+        i = vc.int("i")
+        vc.assume(i >= 0)
+        s = it.call(it.getattr(o, "project"), [i], {})
+        vc.check(f"{self.name}::state-shape", isinstance(s, tuple) and len(s) == d)
+        vc.check(f"{self.name}::never-the-origin", Or(*[c != 0 for c in s]))
+        back = it.call(it.getattr(o, "pair"), [tuple(s)], {})
+        vc.check(f"{self.name}::index-of-state-inverts-state-of-index", back == i)
+        x = tuple(vc.ints("x", d))
+        vc.assume(Or(*[c != 0 for c in x]))
+        ys0 = [MZ(c) for c in x]
+        vc.assume(inj.statement(ys0[0], ys0[1], 0, 0))                   # use(injectivity) at the origin
+        if d == 3:
+            p0 = vc.fresh("p0", "i")
+            vc.assume(And(*pc.ensures(p0, ys0[0], ys0[1]).values()))
+            vc.assume(inj.statement(p0, ys0[2], 0, 0))
+        j = it.call(it.getattr(o, "pair"), [x], {})
+        vc.check(f"{self.name}::index-natural", j >= 0)
+        t = it.call(it.getattr(o, "project"), [j], {})
+        # injectivity instances for the nested 2-d pairings
+        ys = [MZ(c) for c in x]
+        ts = [MZ(c) for c in t]
+        if d == 2:
+            vc.assume(inj.statement(ts[0], ts[1], ys[0], ys[1]))
+        else:
+            pa, pb = vc.fresh("pa", "i"), vc.fresh("pb", "i")
+            vc.assume(And(*pc.ensures(pa, ts[0], ts[1]).values()))
+            vc.assume(And(*pc.ensures(pb, ys[0], ys[1]).values()))
+            vc.assume(inj.statement(pa, ts[2], pb, ys[2]))
+            vc.assume(inj.statement(ts[0], ts[1], ys[0], ys[1]))
+        vc.check(f"{self.name}::state-of-index-inverts-index-of-state", And(*[a == b for a, b in zip(t, x)]))
+
+    def replay(self, model, clause, case):
+        mod = native(P + "PairingToZd")
+        o = mod(native(P + self.cls)(), self.d, True)
+        i = model.get("i", 0)
+        x = tuple(model.get("x", [1] * self.d))
+        info = {"i": i, "x": list(x)}
+        try:
+            s = tuple(int(v) for v in o.project(i))
+            back = o.pair(s)
+            j = o.pair(x)
+            t = tuple(int(v) for v in o.project(j))
+            info.update(project_i=list(s), pair_back=back, pair_x=j, project_back=list(t))
+            bad = back != i or all(c == 0 for c in s) or t != x or j < 0
+        except Exception as e:
+            info["exception"] = f"{type(e).__name__}: {e}"
+            bad = True
+        return (bad, info)
+
+
+UNITS += [ZdBijection("Szudzik", 2), ZdBijection("Szudzik", 3), ZdBijection("Cantor", 2)]
+
+
+# ----------------------------------------------------------------- PairingToZ1d: N <-> [-L, R] \ {0}
+class Z1dBijection(Lemma):
+    """State-of-index on [l, r] (l < 0 < r): every index i in [0, L+R) gives a distinct non-zero state inside the
+    interval, pair inverts it, and the result is a function of the index alone (any call order)."""
+    prop = "C14"
+    cases = ("L<R", "L>R", "L=R")
+
+    def __init__(self):
+        self.name = "property:PairingToZ1d.bijection"
+
+    def _mk(self, vc, case):
+        it = vc.interp
+        l, r = vc.int("l"), vc.int("r")
+        vc.assume(And(l < 0, r > 0))
+        vc.assume({"L<R": -l < r, "L>R": -l > r, "L=R": -l == r}[case])
+        cls = it.get_class(P + "PairingToZ1d")
+        o = it.instantiate(cls, [(l, r)], {})
+        return it, o, l, r
+
+    def prove(self, vc, case):
+        it, o, l, r = self._mk(vc, case)
+        n = self.name + f"[{case}]"
+        i, j = vc.int("i"), vc.int("j")
+        total = r - l
+        vc.assume(And(i >= 0, i < total, j >= 0, j < total, i != j))
+        # history: an arbitrary earlier call on another index j, then index i (cache dropped: project is the raw body)
+        sj = it.call(it.getattr(o, "project"), [j], {})
+        si = it.call(it.getattr(o, "project"), [i], {})
+        vc.check(f"{n}::state-inside-interval", And(l <= si, si <= r))
+        vc.check(f"{n}::never-the-origin", si != 0)
+        back = it.call(it.getattr(o, "pair"), [si], {})
+        vc.check(f"{n}::index-of-state-inverts-state-of-index", back == i)
+        # same index on a fresh object (no earlier call) must give the same state
+        it2, o2, _, _ = it, it.instantiate(it.get_class(P + "PairingToZ1d"), [(l, r)], {}), l, r
+        si_fresh = it.call(it.getattr(o2, "project"), [i], {})
+        vc.check(f"{n}::independent-of-call-order", si == si_fresh)
+        x = vc.int("x")
+        vc.assume(And(l <= x, x <= r, x != 0))
+        k = it.call(it.getattr(o2, "pair"), [x], {})
+        vc.check(f"{n}::index-in-range", And(k >= 0, k < total))
+
+    def replay(self, model, clause, case):
+        cls = native(P + "PairingToZ1d")
+        l, r, i, j = model.get("l", -2), model.get("r", 5), model.get("i", 0), model.get("j", 1)
+        o, o2 = cls((l, r)), cls((l, r))
+        info = {"interval": [l, r], "i": i, "j": j}
+        try:
+            # bypass functools.cache on project: call the undecorated body in the same order as the proof
+            raw = cls.project.__wrapped__
+            sj = raw(o, j)
+            si = raw(o, i)
+            fresh = raw(o2, i)
+            back = o.pair(si)
+            info.update(project_j=sj, project_i_after_j=si, project_i_fresh=fresh, pair_back=back)
+            bad = not (l <= si <= r) or si == 0 or back != i or si != fresh
+            if "x" in model:
+                k = o2.pair(model["x"])
+                info["pair_x"] = k
+                bad = bad or not (0 <= k < r - l)
+        except Exception as e:
+            info["exception"] = f"{type(e).__name__}: {e}"
+            bad = True
+        return (bad, info)
+
+
+UNITS += [Z1dBijection()]
